@@ -29,6 +29,15 @@ CHECKS = [
  chk('C06', 'monotonicity relation on sorted generated civil sequences',
      'convert(civil) non-decreasing along one sorted sequence per zone containing every gap/overlap neighbourhood, adjacent pairs, seam and far years, civil min/max, walked ascending and descending.',
      ZN, 'DESIGN.md §5 C06'),
+ chk('C07', 'rapidcheck round-trip over a generated grammar of lossless formats',
+     'zone panel (UTC, fixed offsets incl. sub-minute and +-23:59:59, shipped zones) x anchored instants x femtoseconds x lossless format grammar (field order, separators, %E*S / %S.%E*f / %E#S, %U/%W + weekday, month names, %E4Y, %s): parse(fmt, format(fmt,t,tz), any zone) == (t, fs).',
+     'The family is the one stated in the property; LC_ALL=C. Known finding R3 (+-24:00:00 offsets) excluded by input class and counted.', 'DESIGN.md §5 C07'),
+ chk('C08', 'rapidcheck token lists vs a reference renderer + strftime differential; libFuzzer for raw/malformed format bytes',
+     'every library-defined specifier rendered from lookup() fields by fmtref and compared byte-for-byte, other conversions compared with strftime on the same fields; malformed strings checked for sanitizer-cleanliness, determinism and literal-prefix preservation.',
+     'fmtref.h transcribes the documentation in time_zone.h; libc conversions that need a year outside the std::tm range are counted as unspecified.', 'DESIGN.md §5 C08'),
+ chk('C09', 'rapidcheck constructive accept/reject cases (independent printer, expected instant known by construction) + libFuzzer self-consistency',
+     'inputs rendered from chosen fields (incl. :60, 0-20 fraction digits, int64-limit instants, civil times in gaps/overlaps of the supplied zone, week-number and 12-hour forms); accept cases must return exactly the denoted instant or false iff it does not fit; reject cases carry one provably unabsorbable defect; every accepted result re-formats and re-parses to itself.',
+     'No second parser is used; zonemodel gives the pre-reading of civil times in shipped zones. Known finding R12 excluded by input class.', 'DESIGN.md §5 C09'),
  chk('C10', 'boundary sweep under ASan/UBSan + model differential with 128-bit clamping',
      'all four operations at the outermost 2 days of both ranges, +-2^59, +-2^31, +-2^62 and table-congruent 400-year multiples, civil min/max and lookup(max/min).cs neighbourhoods, in every zone incl. fixed +-24h; sanitizer-clean and equal to the clamped model.',
      ZN, 'DESIGN.md §5 C10'),
